@@ -24,7 +24,7 @@ N = {"quick": 600, "thorough": 9500}
 
 
 def plan(tier, seed):
-    return [{"n": N[tier]} for _ in range(16)] + [{"kind": "threads", "rounds": 12 if tier == "quick" else 90}]
+    return [{"n": N[tier]} for _ in range(16)] + [{"kind": "threads", "rounds": 12 if tier == "quick" else 90}] + [{"n": N[tier] // 2, "python_flags": ["-bb"]}]
 
 
 def crc32_collision(ctx) -> None:
